@@ -38,6 +38,8 @@ def run(name, tier):
         return prop, f"CHECK-ERROR({p.returncode})", (p.stderr or p.stdout)[-300:].replace("\n", " ")
     finally:
         subprocess.run(["git", "-C", "/repo", "worktree", "remove", "--force", wt], capture_output=True)
+        # a run against another tree regenerates the fact files: restore the committed ones
+        subprocess.run(["git", "-C", VERIF, "checkout", "--", "lean/Ecal/Gen"], capture_output=True)
 
 
 def main():
